@@ -6,7 +6,10 @@
    somebody else until time r — with an error for which errors.Is(err, ErrCASConflict) holds; the
    general `for` loop is fuelled as in the model.  Times are N in the model, Z in the generated file. *)
 From Coq Require Import List String Bool NArith ZArith Lia ZifyBool ZifyN.
-From RQ Require Import Lib.GoLib Lib.GenTac Model.C31 Gen.CasRetry.
+From RQ Require Import Lib.GoLib.
+From RQ Require Import Lib.GenTac.
+From RQ Require Import Model.C31.
+From RQ Require Import Gen.CasRetry.
 Local Open Scope N_scope.
 
 (* The Section variables of the generated file are instantiated by position below; these lines pin
@@ -31,7 +34,7 @@ Definition gen_bwr (fuel : nat) (timeout interval r : N) (c : CheckAndSet) (owne
 Lemma gen_BeginWithRetry_eq : forall fuel timeout interval r c owner,
   outcome_of (gen_bwr fuel timeout interval r c owner) = begin_with_retry fuel timeout interval r.
 Proof.
-  intros fuel timeout interval r c owner. unfold gen_bwr, CheckAndSet_BeginWithRetry, begin_with_retry.
+  intros fuel timeout interval r c owner. unfold gen_bwr, CheckAndSet_BeginWithRetry, begin_with_retry. aux.
   lazymatch goal with |- outcome_of (?F ?a0 ?b0) = _ => pose (LOOP := F) end.
   enough (H : forall fuel now, outcome_of (LOOP fuel (Z.of_N now)) = bwr_loop fuel now (0 + timeout) interval r)
     by exact (H fuel 0).
